@@ -511,6 +511,7 @@ def oracle_c28run(seed, n, tier):
     rep = Report()
     lines = [l for l in h_gen("pycurry", seed, 3 * n, tier) if l.startswith("PYCRUN")]
     rs = h_run(lines)
+    offsets = {}
     for line, r in zip(lines, rs):
         rep.evaluations += 1
         toks = line.split(" ")
@@ -524,11 +525,22 @@ def oracle_c28run(seed, n, tier):
             rep.nontrivial += 1
             nargs = len(items_of(nested(unhex(toks[3]))))
             off = int(f[2]) - int(f[3])
-            rep.hit("offset_args%d=%d" % (min(nargs, 4), off))
+            rep.hit("offset_args%d=%d" % (nargs, off))
+            # the cost offset depends on the number of curried arguments only, and is affine in it
+            offsets.setdefault(nargs, (off, line))
+            if offsets[nargs][0] != off:
+                rep.fail("c28_curry_run", "cost offset for %d curried arguments is %d here but %d for %s: request=%s"
+                         % (nargs, off, offsets[nargs][0], offsets[nargs][1], line))
             rep.sample("%s -> %s" % (line[:80], mine[:80]))
         elif f[1] in ("differ", "err-direct-only", "err-curried-only"):
             # cost budget is generous: a one-sided failure or a different result falsifies the property
             rep.fail("c28_curry_run", "request=%s reply=%s" % (line, mine))
+    if 0 in offsets and 1 in offsets:
+        step = offsets[1][0] - offsets[0][0]
+        for n, (off, line) in sorted(offsets.items()):
+            if off != offsets[0][0] + n * step:
+                rep.fail("c28_curry_run", "cost offset not affine in the number of arguments: %d args -> %d, expected %d + %d*%d: request=%s"
+                         % (n, off, offsets[0][0], n, step, line))
     rep.emit()
 
 
